@@ -21,6 +21,7 @@ AXIOM_TEXT = [
     "x > 0 => exp(log(x)) = x ; log(exp(a)) = a",
     "x >= 0 => sqrt(x)*sqrt(x) = x and sqrt(x) >= 0",
     "cos(a)^2 + sin(a)^2 = 1, cos(-a) = cos(a), sin(-a) = -sin(a), cos(0)=1, sin(0)=0",
+    "log and exp strictly increasing (pairs of occurring arguments): a < b <=> f(a) < f(b); log(1) = 0",
 ]
 
 
@@ -92,6 +93,22 @@ def ground_axioms(terms, max_pairs=12, rounds=1):
                 ax.append(exps[i] * exps[j] == exp(norm(a + b)))
     if exps:
         ax.append(exp(z3.RealVal(0)) == 1)
+    logs = apps.get("log", [])
+    if len(logs) <= max_pairs:
+        for i in range(len(logs)):
+            for j in range(i + 1, len(logs)):
+                a, b = logs[i].arg(0), logs[j].arg(0)
+                ax.append(z3.Implies(z3.And(a > 0, b > 0), z3.And((a < b) == (logs[i] < logs[j]), (a == b) == (logs[i] == logs[j]))))
+    if logs:
+        ax.append(log(z3.RealVal(1)) == 0)
+        for t in logs:
+            ax.append(z3.Implies(t.arg(0) > 0, (t.arg(0) > 1) == (t > 0)))
+            ax.append(z3.Implies(t.arg(0) > 0, (t.arg(0) == 1) == (t == 0)))
+    if len(exps) <= max_pairs:
+        for i in range(len(exps)):
+            for j in range(i + 1, len(exps)):
+                a, b = exps[i].arg(0), exps[j].arg(0)
+                ax.append(z3.And((a < b) == (exps[i] < exps[j]), (a == b) == (exps[i] == exps[j])))
     for t in apps.get("sqrt", []):
         x = t.arg(0)
         ax.append(z3.Implies(x >= 0, z3.And(t * t == x, t >= 0)))
